@@ -698,6 +698,90 @@ fn parse_rows_text(s: &str) -> Option<Vec<Vec<u64>>> {
     s.split('|').map(parse_nat_list).collect()
 }
 
+fn bytes_column_of(dc: &DynamicColumn) -> Option<BytesColumn> {
+    match dc {
+        DynamicColumn::Bytes(c) => Some(c.clone()),
+        DynamicColumn::Str(c) => Some(c.clone().into()),
+        _ => None,
+    }
+}
+
+fn dict_terms(bc: &BytesColumn) -> Option<Vec<Vec<u8>>> {
+    (0..bc.num_terms() as u64).map(|o| { let mut b = vec![]; match bc.ord_to_bytes(o, &mut b) { Ok(true) => Some(b), _ => None } }).collect()
+}
+
+fn opt_list(s: &str) -> Option<Vec<Option<u64>>> {
+    if s == "-" { return Some(vec![]); }
+    s.split(',').map(|t| if t == "x" { Some(None) } else { t.parse::<u64>().ok().map(Some) }).collect()
+}
+
+/// the model of the dictionary merge (TermMerger k-way merge + term ordinal mapping) against the real
+/// merged Str / Bytes column: its dictionary, and the ordinals every merged row holds
+#[allow(clippy::too_many_arguments)]
+fn dict_merge_model(ctx: &mut Ctx, readers: &[ColumnarReader], name: &str, cat: Cat, order: &[(usize, usize)], alive_info: &[Option<Vec<usize>>], merged: &DynamicColumn, merged_ords: &[Vec<u64>], what: &str, case: &Value) {
+    let Some(mbc) = bytes_column_of(merged) else { return };
+    let Some(mterms) = dict_terms(&mbc) else { return };
+    let mut cols: Vec<Option<BytesColumn>> = vec![];
+    for r in readers {
+        let h = r.list_columns().unwrap_or_default().into_iter().find(|(n, h)| n == name && cat_of(h.column_type()) == cat).map(|(_, h)| h);
+        cols.push(h.and_then(|h| h.open().ok()).and_then(|dc| bytes_column_of(&dc)));
+    }
+    let mut dicts: Vec<Vec<Vec<u8>>> = vec![];
+    for c in &cols {
+        match c { Some(bc) => { let Some(t) = dict_terms(bc) else { return }; dicts.push(t) } None => dicts.push(vec![]) }
+    }
+    if dicts.iter().map(|d| d.len()).sum::<usize>() > 1200 { return; }
+    let universe: Vec<Vec<u8>> = dicts.iter().flatten().cloned().collect::<BTreeSet<_>>().into_iter().collect();
+    let rank = |t: &Vec<u8>| universe.binary_search(t).ok().map(|i| i as u64);
+    let dict_txt: Vec<String> = dicts.iter().map(|d| nat_list(&d.iter().map(|t| rank(t).unwrap()).collect::<Vec<_>>())).collect();
+    // the terms a surviving row uses, where the merge was given an alive bitset
+    let used_txt: Vec<String> = cols.iter().enumerate().map(|(s, c)| match (c, &alive_info[s]) {
+        (Some(bc), Some(alive)) => {
+            let u: BTreeSet<u64> = alive.iter().flat_map(|&r| bc.term_ords(r as u32).collect::<Vec<_>>()).collect();
+            nat_list(&u.into_iter().collect::<Vec<_>>())
+        }
+        _ => "*".to_string(),
+    }).collect();
+    let ask = |ctx: &mut Ctx, used: &[String]| -> Option<(Vec<u64>, Vec<Vec<Option<u64>>>)> {
+        let resp = ctx.model.ask(&format!("C08 dictmerge {} {}", used.join("/"), dict_txt.join("/")));
+        let (m, maps) = resp.split_once(';')?;
+        Some((parse_nat_list(m)?, maps.split('/').map(opt_list).collect::<Option<Vec<_>>>()?))
+    };
+    let Some((model_merged, model_maps)) = ask(ctx, &used_txt) else {
+        modelv(ctx, "C08:dict-merge-model", format!("{what}: the model refused the dictionary merge"), case);
+        return;
+    };
+    ctx.report.count("merge:dict-model-compared");
+    if used_txt.iter().any(|u| u != "*") { ctx.report.count("merge:dict-model-with-unused-terms"); }
+    let real_merged: Option<Vec<u64>> = mterms.iter().map(|t| rank(t)).collect();
+    if real_merged.as_ref() != Some(&model_merged) {
+        modelv(ctx, "C08:dict-merge-dictionary", format!("{what}: merged dictionary {real_merged:?} (term ranks), the model's {model_merged:?}"), case);
+        return;
+    }
+    for (i, &(s, r)) in order.iter().enumerate() {
+        let exp: Option<Vec<u64>> = match &cols[s] {
+            Some(bc) => bc.term_ords(r as u32).map(|o| model_maps.get(s).and_then(|m| m.get(o as usize).copied().flatten())).collect(),
+            None => Some(vec![]),
+        };
+        if exp.as_ref() != Some(&merged_ords[i]) {
+            modelv(ctx, "C08:dict-merge-remap", format!("{what}: merged row {i} (segment {s} row {r}) holds ordinals {:?}, the model's remap gives {exp:?}", merged_ords[i]), case);
+            return;
+        }
+    }
+    // the public all-terms mapping (index sorting uses it): every input present
+    if cols.iter().all(|c| c.is_some()) {
+        let present: Vec<BytesColumn> = cols.iter().flatten().cloned().collect();
+        let all: Vec<String> = present.iter().map(|_| "*".to_string()).collect();
+        if let (Ok(real), Some((_, maps))) = (tantivy_columnar::compute_merged_term_ord_mapping(&present), ask(ctx, &all)) {
+            let real: Vec<Vec<Option<u64>>> = real.into_iter().map(|m| m.into_iter().map(Some).collect()).collect();
+            if real != maps {
+                modelv(ctx, "C08:dict-merge-mapping", format!("{what}: compute_merged_term_ord_mapping {real:?}, the model's {maps:?}"), case);
+            }
+            ctx.report.count("merge:dict-mapping-compared");
+        }
+    }
+}
+
 pub fn case_merge(ctx: &mut Ctx, seed: u64, case: &Value) {
     let mut rng = Rng(seed);
     let k = 1 + rng.usize_below(4);
@@ -727,6 +811,8 @@ pub fn case_merge(ctx: &mut Ctx, seed: u64, case: &Value) {
     let shuffled = rng.chance(3, 5);
     let mut order: Vec<(usize, usize)> = vec![];
     let mut any_delete = false;
+    // per input: the alive rows handed to the merge as a bitset (None: no bitset, every term is kept)
+    let mut alive_info: Vec<Option<Vec<usize>>> = vec![None; k];
     let merge_order: MergeRowOrder = if !shuffled {
         for (s, (nd, _)) in inputs.iter().enumerate() { for r in 0..*nd { order.push((s, r)); } }
         StackMergeOrder::stack(&reader_refs).into()
@@ -739,6 +825,7 @@ pub fn case_merge(ctx: &mut Ctx, seed: u64, case: &Value) {
             let alive = if mode == 4 && *nd > 0 { vec![rng.usize_below(*nd)] } else { alive };
             if alive.len() != *nd { any_delete = true; }
             alive_sets.push(if alive.len() == *nd && rng.chance(1, 2) { None } else { Some(read_only_bitset(*nd as u32, &alive.iter().map(|&a| a as u32).collect::<Vec<_>>())) });
+            if alive_sets.last().unwrap().is_some() { alive_info[per_seg.len()] = Some(alive.clone()); }
             per_seg.push(alive);
         }
         match rng.below(3) {
@@ -818,6 +905,9 @@ pub fn case_merge(ctx: &mut Ctx, seed: u64, case: &Value) {
         };
         let dc = match h.open() { Ok(d) => d, Err(e) => { oracle(ctx, "C08:column-open", format!("{what}: open failed: {e}"), case); continue; } };
         let u64rows = check_dynamic(ctx, &mut rng, Some(h), &dc, &exp_t, &what, case);
+        if let (Some(rows), true) = (u64rows.as_ref(), order.len() <= 1500 && matches!(cat, Cat::Bytes | Cat::Str)) {
+            dict_merge_model(ctx, &readers, name, *cat, &order, &alive_info, &dc, rows, &what, case);
+        }
         // model row mapping on u64-valued groups (merged values as the model's opaque values)
         if let (Some(rows), true) = (u64rows, order.len() <= 700 && !matches!(cat, Cat::Ip | Cat::Bytes | Cat::Str)) {
             // inputs as the model sees them: rows of each input in the merged type's u64 image
